@@ -36,6 +36,10 @@ pub enum Ending {
     BareCrThenByte,
     CrAtEof,
     Unterminated,
+    /// a \r in the middle of the header line that is *not* followed by \n (the line ends later)
+    CrInsideHeader,
+    /// a first line that does not start with a junk character, followed by a newline
+    NotJunk,
 }
 
 /// A reader that serves `data` in pieces: never across a cut, never more than `max_read`.
@@ -147,8 +151,8 @@ fn check(c: &Case, obs: &mut Obs) -> Verdict {
             let b = decode_slice(&c.bytes).ok().map(|m| obs_any(&m));
             ensure!(a.is_some() && a == b, "decode with junk header differs from decode of the bare document");
         }
-        Ending::BareCrThenByte => {
-            ensure!(!ok, "a junk header ending in a bare \\r followed by another byte is accepted");
+        Ending::BareCrThenByte | Ending::CrInsideHeader => {
+            ensure!(!ok, "a junk header with a bare \\r followed by another byte is accepted");
         }
         _ => {}
     }
@@ -159,6 +163,8 @@ fn check(c: &Case, obs: &mut Obs) -> Verdict {
         Ending::BareCrThenByte => "header:bare-\\r+byte",
         Ending::CrAtEof => "header:\\r-at-eof",
         Ending::Unterminated => "header:only/unterminated",
+        Ending::CrInsideHeader => "header:\\r-inside-then-\\n",
+        Ending::NotJunk => "first-line-not-junk",
     });
     obs.class(if ok { "outcome:ok" } else { "outcome:err" });
     obs.class_if(h > 8192, "header-longer-than-bufreader");
@@ -186,8 +192,9 @@ fn body() -> BoxedStrategy<(Vec<u8>, bool)> {
         1 => hermes_strategy(p).prop_map(|h| h.to_doc().to_json_no_header()),
         2 => index_strategy(MMParams { max_tokens: 6, ..p }, 1).prop_map(|i| i.to_json_no_header()),
     ];
+    let lead = proptest::sample::select(vec!["", "", "", " ", "\t", "\n", " \n", "\r\n"]);
     prop_oneof![
-        6 => valid.clone().prop_map(|s| (s.into_bytes(), true)),
+        6 => (lead, valid.clone()).prop_map(|(l, s)| (format!("{l}{s}").into_bytes(), true)),
         1 => (valid.clone(), any::<u16>()).prop_map(|(s, at)| {
             let b = s.into_bytes();
             let n = idx16(at, b.len() + 1);
@@ -215,16 +222,21 @@ fn body() -> BoxedStrategy<(Vec<u8>, bool)> {
 }
 
 fn header() -> BoxedStrategy<(Vec<u8>, Ending)> {
-    let start = proptest::sample::select(vec![b')', b']', b'}', b'\'']);
+    let start = prop_oneof![
+        9 => proptest::sample::select(vec![b')', b']', b'}', b'\'']),
+        1 => proptest::sample::select(vec![b'>', b'(', b'[', b'x', b'/', b' ', 0xefu8]),
+    ];
+    let byte = prop_oneof![3 => 0x20u8..0x7f, 1 => proptest::sample::select(vec![b')', b']', b'}', b'\'', b'{', b'"', 0u8, 0xffu8, b'\t'])];
     let garbage = prop_oneof![
-        4 => vec(prop_oneof![3 => 0x20u8..0x7f, 1 => proptest::sample::select(vec![b')', b']', b'}', b'\'', b'{', b'"', 0u8, 0xffu8, b'\t'])], 0..12),
+        4 => vec(byte.clone(), 0..12),
         1 => (8190usize..8200).prop_map(|n| vec![b'x'; n]),
     ];
-    (start, garbage, 0u8..6)
-        .prop_map(|(s, g, e)| {
+    (start, garbage, vec(byte, 1..4), 0u8..8)
+        .prop_map(|(s, g, g2, e)| {
+            let junk = b")]}'".contains(&s);
             let mut h = vec![s];
             h.extend(g.into_iter().filter(|b| *b != b'\n' && *b != b'\r'));
-            let ending = match e {
+            let mut ending = match e {
                 0 | 1 => {
                     h.push(b'\n');
                     Ending::Lf
@@ -237,8 +249,24 @@ fn header() -> BoxedStrategy<(Vec<u8>, Ending)> {
                     h.push(b'\r');
                     Ending::BareCrThenByte
                 }
+                5 | 6 => {
+                    h.push(b'\r');
+                    h.extend(g2.into_iter().filter(|b| *b != b'\n' && *b != b'\r'));
+                    if *h.last().unwrap() == b'\r' {
+                        h.push(b'}');
+                    }
+                    h.push(b'\n');
+                    Ending::CrInsideHeader
+                }
                 _ => Ending::Unterminated,
             };
+            if !junk && ending != Ending::Unterminated {
+                ending = Ending::NotJunk;
+            }
+            if !junk && ending == Ending::Unterminated {
+                ending = Ending::NotJunk;
+                h.push(b'\n');
+            }
             (h, ending)
         })
         .boxed()
@@ -260,7 +288,7 @@ fn assemble(header: Option<(Vec<u8>, Ending)>, body: (Vec<u8>, bool), cut_sel: V
     if ending == Ending::BareCrThenByte && b.first() == Some(&b'\n') {
         ending = Ending::CrLf;
     }
-    if ending == Ending::Unterminated || ending == Ending::CrAtEof || ending == Ending::BareCrThenByte {
+    if matches!(ending, Ending::Unterminated | Ending::CrAtEof | Ending::BareCrThenByte | Ending::CrInsideHeader | Ending::NotJunk) {
         body_valid = false;
     }
     if ending == Ending::NoHeader && bytes.first().map(|c| b")]}'".contains(c)).unwrap_or(false) {
@@ -319,6 +347,11 @@ fn all_chunkings(t: Tier) -> Box<dyn Iterator<Item = Case>> {
         (b"]x\r\n{\"sections\":[]}", 4, Ending::CrLf, true),
         (b"}'\r{\"mappings\":\"\"}", 3, Ending::BareCrThenByte, false),
         (b")]}'\r\n{\"mappings\":\"A\"}", 6, Ending::CrLf, true),
+        (b")\rx\n{}", 4, Ending::CrInsideHeader, false),
+        (b")]}'\r}\n{}", 7, Ending::CrInsideHeader, false),
+        (b"}\r {}", 2, Ending::BareCrThenByte, false),
+        (b">\n{}", 2, Ending::NotJunk, false),
+        (b"]\r\r\n{}", 2, Ending::BareCrThenByte, false),
     ];
     Box::new(docs.into_iter().filter(move |d| d.0.len() <= max + 1).flat_map(move |(bytes, h, ending, valid)| {
         let bytes: Vec<u8> = bytes.to_vec();
